@@ -16,10 +16,10 @@ import (
 // ---- C11: loops visit exactly the selected items with consistent forloop state ----
 
 type c11Case struct {
-	Tag    string `json:"tag"`            // for | tablerow
-	Coll   string `json:"coll"`           // any | ints | array | range | litrange | strs | nil | undefined
-	A      int    `json:"a"`              // first item (ranges: lower endpoint)
-	Len    int    `json:"len"`            // number of items (ranges: b = a+len-1, so len may be <= 0)
+	Tag    string `json:"tag"`  // for | tablerow
+	Coll   string `json:"coll"` // any | ints | array | range | litrange | strs | nil | undefined
+	A      int    `json:"a"`    // first item (ranges: lower endpoint)
+	Len    int    `json:"len"`  // number of items (ranges: b = a+len-1, so len may be <= 0)
 	Off    *int   `json:"off,omitempty"`
 	Lim    *int   `json:"lim,omitempty"`
 	Rev    bool   `json:"rev,omitempty"`
